@@ -1,4 +1,5 @@
 import Driver.MeshOpsDrv
+import Driver.MeshMoreDrv
 import PolyVerif.Model.Primitives
 
 namespace Driver.C02
@@ -94,6 +95,7 @@ def handle (op : String) (args : List String) : Option String :=
   else if op.startsWith "c02.op." then
     let name := (op.drop 7).toString
     if knownPanic name args then some "panic" else
+    if moreOps.contains name then (applyMore name args).map (showResults name) else   -- Model/MeshMore.lean (round 2)
     (applyOp name args).map (showResults name)
   else match op, args.mapM String.toNat? with
     | "c02.gen.uvsphere", some [r, c] => if r < 2 ∨ c < 3 then some "rejected" else some (genOut (uvVerts r c) (uvSphereTris r c))
